@@ -64,10 +64,13 @@ Insert(seq, e) == IF HasName(seq, e[1]) THEN [seq EXCEPT ![IdxOf(seq, e[1])] = e
 \* IndexMap::entry(k).or_insert_with(v) — keep the existing value, else append
 OrInsert(seq, e) == IF HasName(seq, e[1]) THEN seq ELSE Append(seq, e)
 \* Labels::from_record: the visitor inserts every field that has a value, in declaration order
-FromRecord(fs) == FoldLeft(Insert, <<>>, fs)
+RECURSIVE InsertAll(_, _), OrInsertAll(_, _)
+InsertAll(seq, es) == IF es = <<>> THEN seq ELSE InsertAll(Insert(seq, Head(es)), Tail(es))
+OrInsertAll(seq, es) == IF es = <<>> THEN seq ELSE OrInsertAll(OrInsert(seq, Head(es)), Tail(es))
+FromRecord(fs) == InsertAll(<<>>, fs)
 \* Labels::extend_from_labels / extend_from_labels_overwrite
-ExtendKeep(seq, other) == FoldLeft(OrInsert, seq, other)
-ExtendOverwrite(seq, other) == FoldLeft(Insert, seq, other)
+ExtendKeep(seq, other) == OrInsertAll(seq, other)
+ExtendOverwrite(seq, other) == InsertAll(seq, other)
 
 \* ------------------------------------------------------------------ filter
 \* [kind |-> "all"] | [kind |-> "allow", names |-> set] | [kind |-> "custom", deny |-> set of <<metric, name, value>>]
@@ -95,16 +98,19 @@ Inherited(s) == IF par[s] = 0 THEN EmptyMap ELSE Over(psnap[s], Inherited(par[s]
 Vis(s) == IF s = 0 THEN EmptyMap ELSE Over(own[s], Inherited(s))
 
 \* ------------------------------------------------------------------ enhance_key
-\* f: filter, t: emitting thread, m: metric name, ml: the metric's own labels (sequence of <<name, value>>)
-DeliverF(f, t, m, ml) ==
-  LET c == Cur(t) IN
-  IF c = 0 THEN ml                                     \* current.id()? -> None: key passed through
-  ELSE IF labels[c] = <<>> THEN ml                     \* (!span_labels.is_empty()).then(..) -> None
-  ELSE LET kept == SelectSeq(labels[c], LAMBDA e : Allowed(f, m, e))   \* span_labels.retain(filter)
+\* The pure part: f filter, L the current span's Labels map (sequence), hasSpan: there is a current span,
+\* m metric name, ml the metric's own labels (sequence of <<name, value>>)
+DeliverOn(f, L, hasSpan, m, ml) ==
+  IF ~hasSpan THEN ml                                  \* current.id()? -> None: key passed through
+  ELSE IF L = <<>> THEN ml                             \* (!span_labels.is_empty()).then(..) -> None
+  ELSE LET kept == SelectSeq(L, LAMBDA e : Allowed(f, m, e))   \* span_labels.retain(filter)
        IN ExtendOverwrite(kept, ml)                    \* span_labels.extend(metric labels): overwrite / append
+\* c: the emitting thread's current span (0 = none)
+DeliverC(f, c, m, ml) == DeliverOn(f, IF c = 0 THEN <<>> ELSE labels[c], c # 0, m, ml)
+DeliverF(f, t, m, ml) == DeliverC(f, Cur(t), m, ml)
 Deliver(t, m, ml) == DeliverF(filter, t, m, ml)
 
-NoOut == [t |-> 0, m |-> 0, ml |-> <<>>, key |-> <<>>, model |-> <<>>]
+NoOut == [t |-> 0, m |-> 0, ml |-> <<>>, key |-> <<>>, model |-> <<>>, vis |-> <<>>]
 
 InitWith(f) ==
   /\ par = <<>> /\ labels = <<>> /\ own = <<>> /\ psnap = <<>>
@@ -160,7 +166,7 @@ Exit(t, s) ==
 \* counter!/gauge!/histogram!(m, ml) by thread t: the key handed to the inner recorder
 Emit(t, m, ml) ==
   /\ Distinct(ml)
-  /\ LET k == Deliver(t, m, ml) IN out' = [t |-> t, m |-> m, ml |-> ml, key |-> k, model |-> k]
+  /\ LET k == Deliver(t, m, ml) IN out' = [t |-> t, m |-> m, ml |-> ml, key |-> k, model |-> k, vis |-> Vis(Cur(t))]
   /\ UNCHANGED <<par, labels, stack, filter, own, psnap, nops>>
 
 \* ------------------------------------------------------------------ the property
@@ -169,25 +175,27 @@ Emit(t, m, ml) ==
 SameBag(a, b) == Len(a) = Len(b) /\ \A x \in ToSet(a) \cup ToSet(b) :
                    Cardinality({i \in DOMAIN a : a[i] = x}) = Cardinality({i \in DOMAIN b : b[i] = x})
 
-PNoDup(key) == Distinct(key)                                   \* no label name twice
-PMetricWins(ml, key) == \A i \in DOMAIN ml : \E j \in DOMAIN key : key[j] = ml[i]   \* own labels kept, own value wins
-PSpanFields(f, t, m, ml, key) ==                               \* exactly the admitted visible fields besides
-  LET V == Vis(Cur(t)) IN
-  /\ \A n \in (DOMAIN V) \ NamesOf(ml) :
-       Allowed(f, m, <<n, V[n]>>) <=> (\E j \in DOMAIN key : key[j] = <<n, V[n]>>)
-  /\ \A j \in DOMAIN key :
-       \/ key[j][1] \in NamesOf(ml)
-       \/ /\ key[j][1] \in DOMAIN V /\ key[j][2] = V[key[j][1]] /\ Allowed(f, m, key[j])
-PUnchanged(t, ml, key) == (Cur(t) = 0 \/ DOMAIN Vis(Cur(t)) = {}) => key = ml   \* no span / no fields: untouched
+\* (V = Vis(current span of t), hasSpan = there is a current span; passed in so they are computed once)
+PNoDup(key) == Cardinality(NamesOf(key)) = Len(key)           \* no label name twice
+PMetricWins(ml, key) == ToSet(ml) \subseteq ToSet(key)        \* own labels kept, own value wins
+PSpanFieldsV(f, V, m, ml, key) ==                              \* besides, exactly the admitted visible fields
+  LET KS == ToSet(key)
+      NM == NamesOf(ml)
+  IN /\ \A n \in (DOMAIN V) \ NM : Allowed(f, m, <<n, V[n]>>) <=> (<<n, V[n]>> \in KS)
+     /\ \A e \in KS : \/ e[1] \in NM
+                      \/ e[1] \in DOMAIN V /\ e[2] = V[e[1]] /\ Allowed(f, m, e)
+PUnchangedV(V, ml, key) == (DOMAIN V = {}) => key = ml         \* no span / no visible field: untouched
 
-EmitOKF(f, t, m, ml, key) ==
-  /\ PNoDup(key) /\ PMetricWins(ml, key) /\ PSpanFields(f, t, m, ml, key) /\ PUnchanged(t, ml, key)
+EmitOKV(f, V, m, ml, key) ==
+  /\ PNoDup(key) /\ PMetricWins(ml, key) /\ PSpanFieldsV(f, V, m, ml, key) /\ PUnchangedV(V, ml, key)
+EmitOKF(f, t, m, ml, key) == EmitOKV(f, Vis(Cur(t)), m, ml, key)
 
-\* the last delivery (observed key in trace validation; = model in exhaustive runs)
+\* the last delivery (observed key in trace validation; = model in exhaustive runs); out.vis = the visible
+\* fields of the emitting thread's current span at that moment
 OutNoDup      == out.t # 0 => PNoDup(out.key)
 OutMetricWins == out.t # 0 => PMetricWins(out.ml, out.key)
-OutSpanFields == out.t # 0 => PSpanFields(filter, out.t, out.m, out.ml, out.key)
-OutUnchanged  == out.t # 0 => PUnchanged(out.t, out.ml, out.key)
+OutSpanFields == out.t # 0 => PSpanFieldsV(filter, out.vis, out.m, out.ml, out.key)
+OutUnchanged  == out.t # 0 => PUnchangedV(out.vis, out.ml, out.key)
 \* the observed key is what the mirrored algorithm computes (as a bag; identical when it must be untouched)
 OutConforms   == out.t # 0 => SameBag(out.key, out.model)
 
